@@ -120,6 +120,21 @@ pub fn selftest() -> Result<(), String> {
             Err(p) if !p.harness => {}
             other => return Err(format!("library panic not attributed to the library: {:?}", other.err().map(|p| (p.harness, p.file)))),
         }
+        // a panic whose reported location lies in std (capacity overflow raised by Vec::with_capacity) but which is
+        // raised on behalf of library code must be attributed through the backtrace
+        let c = crate::obs::guard(|| {
+            let n = std::hint::black_box(usize::MAX / 2);
+            pmtiles2::Directory::from(Vec::with_capacity(n)).len()
+        });
+        match c {
+            Err(p) if p.harness => {} // raised by the harness' own Vec::with_capacity: harness
+            other => return Err(format!("std-located harness panic not attributed to the harness: {:?}", other.err().map(|p| (p.harness, p.file)))),
+        }
+        let t = crate::obs::guard(|| pmtiles2::util::zxy(std::hint::black_box(5)).map(|_| pmtiles2::util::tile_id(std::hint::black_box(40), 1, 1)));
+        match t {
+            Err(p) if !p.harness => {} // 4u64.pow(32) overflows inside util::tile_id: location in core, frame in the library
+            other => return Err(format!("std-located library panic not attributed to the library: {:?}", other.err().map(|p| (p.harness, p.file)))),
+        }
         let _ = std::panic::take_hook();
     }
     // the independent JSON reader returns exactly what was serialised
